@@ -33,7 +33,7 @@ class BenchAst:
     """a random netlist of the dialect with its intended meaning"""
 
     def __init__(self, rng, dff=True, weird_layout=True):
-        self.inputs = [f"{rng.choice(['a', 'G', 'in_'])}{i}" for i in range(rng.randint(1, 4))]
+        self.inputs = [f"{rng.choice(['a', 'G', 'in_', 'a', 'G', 'buffered', 'qbuff'])}{i}" for i in range(rng.randint(1, 4))]
         self.inputs = list(dict.fromkeys(self.inputs))
         self.gates = []   # (net, type, [ins])
         self.dffs = []    # (q, d)
@@ -44,7 +44,8 @@ class BenchAst:
         for i in range(rng.randint(1, 7)):
             t = rng.choice(GATES)
             k = 1 if t in ("buf", "buff", "not") else rng.randint(1, min(4, len(pool)))
-            net = f"{rng.choice(['n', 'w', 'G1', '_n'])}{i}"          # `_n3`: identifiers may start with an underscore (K40)
+            # `_n3`: identifiers may start with an underscore (K40); names that contain a gate keyword (`buff1`, `xnor_2`)
+            net = f"{rng.choice(['n', 'w', 'G1', '_n', 'n', 'w', 'buff', 'rebuff_', 'BUFFER', 'xnor_', 'nand', 'dff_', 'OUTPUTx', 'input_'])}{i}"
             ops = rng.sample(pool, k)
             if k >= 1 and t not in ("buf", "buff", "not") and rng.random() < 0.12:
                 dup = rng.choice(ops)                     # an operand given 2, 3 or 4 times (cancels in XOR/XNOR: K35)
@@ -124,7 +125,7 @@ class P(Prop):
             "at every output; non-trivial = netlist with >=2 gates")
     assumptions = ["CPython `re` is modelled by CG/Regex.lean (differential-tested here on the extracted patterns)",
                    "set-iteration order inside the patched run is the model's ordBy(seed) family"]
-    budget = {"quick": (120, 120), "thorough": (2000, 2000)}
+    budget = {"quick": (360, 360), "thorough": (2000, 2000)}
 
     def correspond(self, n):
         drv = self.driver()
